@@ -394,6 +394,27 @@ theorem built_WF (cs : List Call) (s : PState) (h : build cs = .ok s)
     (hb : Prog.boundList s.inputs (progSupplied cs) = true) : WF s :=
   ⟨built_sizesOk cs s h, by rw [(built cs s h).2.2.2.1]; exact hb⟩
 
+/-! ### any number and naming of stacks -/
+
+/-- The type-state of `PushState`'s builder is the three-stack instance of the automaton that is
+    generic in the number of stacks (the one the compile probes also check on a second, differently
+    shaped state struct). -/
+theorem tstep_is_generic (t : TState) (c : Call) :
+    (tstep t c).map TState.toG = gstep t.toG c.toG ∧ buildable t = gbuildable t.toG := by
+  refine ⟨?_, rfl⟩
+  cases c <;> simp only [tstep, gstep, Call.toG, TState.toG] <;>
+    (try split) <;> simp_all [TState.toG, List.all_cons, List.set]
+
+/-- in the generic automaton too: no resize after load, no build without program decision and step limit -/
+theorem generic_no_resize (t : GState) (i : Nat) (h : t.stacks[i]? = some .loaded) :
+    gstep t (.maxOf i) = none ∧ gstep t .maxAll = none := by
+  constructor
+  · simp [gstep, h, TS.dataless]
+  · have : t.stacks.all TS.dataless = false := by
+      rw [List.all_eq_false]
+      exact ⟨.loaded, List.mem_of_getElem? h, by simp [TS.dataless]⟩
+    simp [gstep, this]
+
 /-! ### Non-vacuity -/
 /-- a typical accepted sequence (values before and after an individual resize of another stack, inputs
     in "reverse" order) and what it builds -/
